@@ -151,3 +151,16 @@ SPECS["C17"] = [
 ]
 IMPORTS["C17"] = ["ArimModel.Src", "ArimModel.Geometry"]
 USES["C16"] = ["C17"]
+
+# ---- C02: the robust aggregations' kernels (arim.im.huber, arim.im.geomed): one reweighting step, the objective,
+#      its gradient and inverse Hessian.  `data` is the (n, 2) array of the delayed samples (real, imaginary part).
+HUBER = "arim/im/huber.py"
+GEOMED = "arim/im/geomed.py"
+ROBUST_BIND = {"len(data)": ("n", N)}
+SPECS["C02"] += [
+    FuncSpec(HUBER, "_huber_iter", "huber_iter", [("data", A(K, 2)), ("n", N), ("tau", K), ("x0", K), ("y0", K)], bind=ROBUST_BIND,
+             locals={"sum_w": K, "x": K, "y": K}),
+    FuncSpec(GEOMED, "_f", "geomed_f", [("data", A(K, 2)), ("n", N), ("z", A(K, 1))], bind=ROBUST_BIND, locals={"out": K}),
+    FuncSpec(GEOMED, "_gradf_and_inv_hessf", "geomed_gradf_and_inv_hessf", [("data", A(K, 2)), ("n", N), ("z", A(K, 1))], bind=ROBUST_BIND,
+             locals={"gx": K, "gy": K, "a11": K, "a12": K, "a22": K}),
+]
